@@ -79,7 +79,7 @@ func c08Templates(batch, nbatch int) []*gram.Grammar {
 	grp := func(mode string, k *gram.Expr) *gram.Expr {
 		return &gram.Expr{Op: "grp", Mode: mode, Kids: []*gram.Expr{k}}
 	}
-	prefixes := []string{"none", "opt", "star", "poslook", "neglook", "consume", "bracketopt", "optgroup2", "nullable-production", "nullable-chain", "nullable-then-dependent", "nonempty-group-of-nullable-production", "lookalike-production-optional-head"}
+	prefixes := []string{"none", "opt", "star", "poslook", "neglook", "consume", "bracketopt", "optgroup2", "nullable-production", "nullable-chain", "nullable-then-dependent", "nonempty-group-of-nullable-production", "lookalike-production-optional-head", "alternation-with-a-nullable-branch"}
 	wrappers := []string{"bare", "paren", "optgroup", "stargroup", "look", "neg", "plusgroup", "captured-group-before"}
 	routes := []string{"direct", "viaB", "viaUnion", "viaBnullableprefix", "viaUnionOnly", "unionCycleBelowRoot", "unionRootDirect", "unionRootViaRoot", "unusedUnion"}
 	altpos := []string{"first", "second-after-single", "second-after-multi", "third"}
@@ -167,6 +167,9 @@ func c08Templates(batch, nbatch int) []*gram.Grammar {
 							pre = append(pre, lit("x"))
 						case "bracketopt":
 							pre = append(pre, &gram.Expr{Op: "grp", Mode: "?", Brack: true, Kids: []*gram.Expr{lit("x")}})
+						case "alternation-with-a-nullable-branch":
+							// ( "x" | "y"? ): one branch can match nothing, so the group can
+							pre = append(pre, grp("", &gram.Expr{Op: "alt", Kids: []*gram.Expr{lit("x"), grp("?", lit("y"))}}))
 						case "optgroup2":
 							pre = append(pre, grp("?", seq(lit("x"), lit("y"))), grp("*", lit("w")))
 						}
@@ -313,7 +316,7 @@ func c08Templates(batch, nbatch int) []*gram.Grammar {
 						g.Prods = append(g.Prods, &gram.Prod{Name: N3, Fields: []gram.Field{{Name: "F0", Kind: "string"}}, Expr: seq(grp("?", lit("x")), &gram.Expr{Op: "cap", Field: 0, Kids: []*gram.Expr{lit("y")}})})
 					}
 					an := gram.Analyse(g)
-					if an.BugClass() != "" {
+					if an.BugClass() != "" && pf != "alternation-with-a-nullable-branch" {
 						continue
 					}
 					out = append(out, g)
@@ -393,7 +396,9 @@ func c08Child(c *mon.Child) {
 			c.Feature("grammars_not_left_recursive_by_our_analysis")
 		}
 		// Dynamic half: an accepted parser's recursion depth is bounded by the input length.
-		if berr == nil && !wantLR {
+		// (Grammars of the library's own "grammar bug" class - an alternative that can match nothing - are only
+		// judged on Build's verdict: parsing them may panic by design.)
+		if berr == nil && !wantLR && an.BugClass() == "" {
 			nodes := g.Count()
 			smp := gram.NewSampler(g, c.RNG("dyn", h.ID))
 			for i, toks := range smp.Inputs(c.N(12, 30)) {
